@@ -1,9 +1,10 @@
 (* C14 -- polynomial evaluation agrees with exact evaluation in every basis: statements.
    Model: MPSV.Eval.EvalModel (definitions only).  Proofs: Eval/EvalExact.v, Eval/EvalRounded.v,
-   Eval/EvalTwin.v. *)
+   Eval/EvalTwin.v, Eval/EvalBound.v, Eval/EvalSparse.v, Eval/EvalCheb.v. *)
 Require Import Reals List QArith.
 From Coquelicot Require Import Complex.
 Require Import MPSV.Eval.EvalModel MPSV.Eval.EvalExact MPSV.Eval.EvalRounded MPSV.Eval.EvalTwin.
+Require Import MPSV.Eval.EvalBound MPSV.Eval.EvalSparse MPSV.Eval.EvalCheb.
 Import ListNotations.
 Local Open Scope R_scope.
 
@@ -98,6 +99,60 @@ Print Assumptions C14_twin_value.
 
 
 
+(* ... and its rational bound (qsqrt_up / qup roundings included) is an upper bound of p~(|x|): the
+   bound computation of the correspondence check is no longer trusted. *)
+Theorem C14_twin_bound : forall (l : list QC) (x : QC),
+  habs (map QC2C l) (Cmod (QC2C x)) <= Q2R (snd (eval_mono_q l x)).
+Proof. exact twin_bound. Qed.
+Print Assumptions C14_twin_bound.
+
+(* Rounded pairing/squaring scheme of mps_mhorner_sparse (q passes, every sparsity pattern):
+   |s^ - p(x)| <= ((1+mu)^(2^q + q - 1) - 1) p~(|x|).  One pass costs a product and a sum; the
+   j times squared y carries the exponent 2^j - 1, which is where the degree enters. *)
+Theorem C14_sparse_apriori : forall (A : arith) (mu : R), std_model mu A ->
+  forall (l : list (option C)) (x : C) (q : nat), (length l <= 2 ^ q)%nat ->
+  Cmod (sparse_fl A q x l - hornerC (deopt C (RtoC 0) l) x)%C
+    <= ((1 + mu) ^ sparse_expo q - 1) * habs (deopt C (RtoC 0) l) (Cmod x).
+Proof. exact sparse_apriori. Qed.
+Print Assumptions C14_sparse_apriori.
+
+Theorem C14_sparse_expo_closed : forall q : nat, (sparse_expo q + 1 = 2 ^ q + q)%nat.
+Proof. exact sparse_expo_closed. Qed.
+Print Assumptions C14_sparse_expo_closed.
+
+(* The degree factor is necessary (explains the known finding monomial:meval-sparse:mp-estimate): in the
+   arithmetic that scales every result by 1 + delta -- a standard-model arithmetic with mu = delta --
+   the sparse scheme on the single term a x^n, n = 2^k, errs by EXACTLY ((1+delta)^n - 1) p~(|x|), hence
+   by at least n delta p~(|x|).  An estimate u4 (p~(|x|) + |value|) whose u4 does not grow with the degree,
+   as returned by mps_mhorner_with_error2 (u4 = 4 * 2^-wp), cannot bound the error of the sparse
+   evaluator for every arithmetic of accuracy mu once n mu exceeds about 2 u4. *)
+Theorem C14_sparse_monomial_error : forall (delta : R), 0 <= delta -> forall (k : nat) (a x : C),
+  Cmod (sparse_fl (sarith delta) (S k) x (monomial_input k a)
+        - hornerC (deopt C (RtoC 0) (monomial_input k a)) x)%C
+  = ((1 + delta) ^ (2 ^ k) - 1) * habs (deopt C (RtoC 0) (monomial_input k a)) (Cmod x).
+Proof. exact sparse_monomial_error. Qed.
+Print Assumptions C14_sparse_monomial_error.
+
+Theorem C14_sparse_estimate_needs_degree_factor : forall (delta : R) (k : nat) (a x : C), 0 <= delta ->
+  std_model delta (sarith delta) /\
+  INR (2 ^ k) * delta * habs (deopt C (RtoC 0) (monomial_input k a)) (Cmod x)
+    <= Cmod (sparse_fl (sarith delta) (S k) x (monomial_input k a)
+             - hornerC (deopt C (RtoC 0) (monomial_input k a)) x)%C.
+Proof. exact sparse_estimate_needs_degree_factor. Qed.
+Print Assumptions C14_sparse_estimate_needs_degree_factor.
+
+(* Rounded forward recurrence of mps_chebyshev_poly_meval, degree n = length - 1:
+   |v^ - sum c_k T_k(x)| <= ((1+mu)^(4n) - 1) sum |c_k| T~_k(|x|), with the majorant recurrence on moduli
+   T~_0 = 1, T~_1 = |x|, T~_{k+1} = 2|x| T~_k + T~_{k-1} (valid inside and outside [-1,1]).  The model rounds
+   the factor 2 (ktwo = fl(1+1)) although mpc_mul_eq_ui is exact: the constant 4 per step is therefore
+   one more than what the code needs (the check uses 3). *)
+Theorem C14_chebrec_apriori : forall (A : arith) (mu : R), std_model mu A ->
+  forall (cs : list C) (x : C),
+  Cmod (cheb_fl A cs x - chebC cs x)%C
+    <= ((1 + mu) ^ (4 * (length cs - 1)) - 1) * chebabs_R cs (Cmod x).
+Proof. exact chebrec_apriori. Qed.
+Print Assumptions C14_chebrec_apriori.
+
 (* ------------------------------------------------------------------ non-vacuity *)
 
 (* the standard model is satisfiable (exact arithmetic, any mu >= 0) ... *)
@@ -120,3 +175,7 @@ Proof. exact ex_guard. Qed.
 (* secular: x = 3 is not a pole of 1/(x-1) + 2/(x+1) - 1 *)
 Example C14_ex_all_ne : all_ne [(RtoC 1, RtoC 1); (RtoC 2, RtoC (-1))] (RtoC 3).
 Proof. exact ex_all_ne. Qed.
+(* the witness input is not degenerate: x^4 alone is [None;None;None;None;Some a], 3 passes *)
+Example C14_ex_monomial_input : monomial_input 2 (RtoC 1) = [None; None; None; None; Some (RtoC 1)]
+  /\ sparse_expo 3 = 10%nat.
+Proof. split; reflexivity. Qed.
